@@ -16,7 +16,7 @@ events on `drain`.
 
 Ops (a case starts with `reset [next=<counter>]`):
   open c=K | in c=K it=<f:pk,pk,..|bad|err|eof> | rd c=K [w=0] | rds c=K [w=0] | wr c=K ok=<0|1> |
-  adv dt=MS | kick c=K | okick c=K | push c=K | mpush ids=<cK|u<n>,..> | spush c=K | fill c=K n=N | arm <op> | go | drain | end
+  adv dt=MS | kick c=K | okick c=K | push c=K | mpush ids=<cK|u<n>,..> | spush c=K | fill c=K n=N | qfill n=N | arm <op> | go | drain | end
   (`open` options: cbp=<h|c> panicking close callback, ce=<1|f> conn.Close() returns an error (always | first call))
 packets: hs1 hs0 ack d<mid> x<mid> hb ot.
 
@@ -54,6 +54,7 @@ structure D where
   counter : Nat := 1                 -- SerialIdService.nextId
   live : List (Nat × Nat) := []      -- sessions map: (id, connection)
   armed : Option String := none      -- op recorded by `arm`, executed by `go`
+  fillers : Nat := 0                 -- filler closures in the owner's queue (`qfill`), gone at the next drain
 
 def M32 : Nat := 4294967296
 
@@ -225,7 +226,7 @@ def ownerTask (d : D) (k : Nat) (e : Ev) : D :=
 
 def drain (d : D) : D :=
   let q := d.queue
-  q.foldl (fun d p => ownerTask d p.1 p.2) { d with queue := [] }
+  q.foldl (fun d p => ownerTask d p.1 p.2) { d with queue := [], fillers := 0 }
 
 def isLive (d : D) (c : Conn) : Bool := c.id != 0 && d.live.any (fun p => p.1 == c.id && p.2 == c.k)
 
@@ -324,6 +325,11 @@ def stepCore (d : D) (line : String) : D × String :=
       let d := if isLive d c then settleAll (putConn d { c with s := fireL c.s [.push], np := c.np + 1 }) else d
       (d, showObs d k "")
     | none => (d, "none")
+  | some "qfill" =>
+    -- a backlogged owner (sche.QueueSize = 999; never to within 9 of it); Post is a plain FIFO send: nothing else changes
+    let n := (kvNat ws "n").getD 0
+    if n == 0 || d.queue.length + d.fillers + n > 990 then (d, "none")
+    else let d := { d with fillers := d.fillers + n }; (d, showObs d 0 "")
   | some "mpush" =>
     -- one PushMsg for several ids; each id is looked up in the sessions map in turn, an unknown one is skipped
     let toks := ((kv ws "ids").getD "").splitOn ","
@@ -440,7 +446,7 @@ def recFields (r : String) : Option (Nat × List String) :=
     else none
   | _ => none
 
-def checkConn (sp : Sp) (atEnd : Bool) (k : Nat) (fs : List String) (allOw : List (Nat × List String)) : Option String :=
+def checkConn (sp : Sp) (atEnd : Bool) (drained : Bool) (k : Nat) (fs : List String) (allOw : List (Nat × List String)) : Option String :=
   let ev := tokens ((kv fs "ev").getD "")
   let ow := tokens ((kv fs "ow").getD "")
   let cc := (kvNat fs "cc").getD 0
@@ -468,6 +474,10 @@ def checkConn (sp : Sp) (atEnd : Bool) (k : Nat) (fs : List String) (allOw : Lis
   else if na == 0 && (owM.length > 0 || nr > 0) then some s!"C05/session-add-missing-or-twice connection {k}: owner saw {ow} without an add"
   else if !isSubseq evM sent then some s!"C05/message-order connection {k}: posted {evM}, arrived {sent}"
   else if !isSubseq owM evM then some s!"C05/message-order connection {k}: owner saw {owM}, posted {evM}"
+  else if drained && (na != 1 || owM != evM) then
+    some s!"C05/message-order connection {k}: after the owner ran everything queued it has seen {ow}; posted (up to the remove): {ev}"
+  else if drained && nR == 1 && nr != 1 then
+    some s!"C05/no-session-remove connection {k}: after the owner ran everything queued it has not seen the remove: {ow}"
   else if ow.any (fun t => t.startsWith "r" && t != wantR) then some s!"C05/close-callback-count connection {k}: {ow}, expected {wantR} (handler close callback, then the sessions' close callback, each once; a panicking handler callback ends the removal)"
   else if st == 4 && nR == 0 then some s!"C05/no-session-remove connection {k}: status Closed but OnSessionClose was never called"
   else if st == 3 && nR == 0 && !filled && sp.now ≥ lastGrant + 30000 then
@@ -589,7 +599,7 @@ def specStep (sp : Sp) (line : String) : Sp × String :=
           if np == oldNp + want then none
           else some s!"C05/push-delivery connection {k}: {op}: the owner handed it {np - oldNp} pushes, {want} expected (registered ids of the push get it once each, whatever else is in the id list)"
       let sp := { sp with prev := cur, prevLive := liveIds }
-      match rs.findSome? (fun p => checkConn sp atEnd p.1 p.2 allOw) with
+      match rs.findSome? (fun p => checkConn sp atEnd (atEnd || ws.head? == some "drain") p.1 p.2 allOw) with
       | some v => (sp, "VIOLATION " ++ v)
       | none =>
         if let some v := pushBad then (sp, "VIOLATION " ++ v)
